@@ -1,1 +1,151 @@
-/-! # C27 — property theorems (stub: not built yet) -/
+import PymocaVerif.Lemmas.Merge
+/-!
+# C27 — assembling a library from several files is order-independent
+
+Property theorems over `Model/Merge.lean` (`file_to_tree`, `Tree.extend` / `Class._extend`, the
+merge loops of `api._compile_model` and `compiler.parse_all`), for any number of files, any
+nesting depth and any number of classes.
+
+"Equal up to the order of sibling classes" is `Equiv`: the same payload at every class path
+(for trees that satisfy the dictionary invariant `Wf` this determines the tree up to the order
+of the keys of each `classes` dictionary; name lookup — `classes[name]` — does not see that order).
+
+* With `fill ph` (the code with `proposed_fixes/C27-1.diff`) the property holds for every split
+  whose class paths have their payload defined at most once (`extend_comm_assoc`,
+  `defined_payload_survives`).
+* With `keepFirst` (the code as it is) it holds only when no `within` placeholder meets a
+  definition (`extend_order_independent_asis_partial`); `asis_first_file_wins` and
+  `asis_within_before_package_loses_payload` are the open finding C27-F1 on the model.
+-/
+namespace PymocaVerif.Merge
+
+variable {α : Type}
+
+/-- After `self.extend(other)` the payload at every class path is the combination of the two
+    payloads at that path (nothing is lost, nothing appears), at any depth. -/
+theorem payload_after_extend (mp : α → α → α) (self other : Forest α) (hw : Wf other)
+    (path : List String) :
+    get (extend mp self other) path = omerge mp (get self path) (get other path) :=
+  get_extend mp self other hw path
+
+example : Wf (Forest.cons "P" 1 (.cons "M" 2 .nil .nil) .nil) := by simp [Wf, names]
+
+/-- `extend` keeps the dictionary invariant (distinct sibling names at every level), so the
+    theorems apply to every intermediate tree of a merge of any length. -/
+theorem extend_keeps_wf (mp : α → α → α) (self other : Forest α) (hs : Wf self) (ho : Wf other) :
+    Wf (extend mp self other) :=
+  wf_extendBy mp other ho self hs
+
+/-- Starting from the first file's tree (`api._compile_model`) or from an empty tree
+    (`compiler.parse_all`) gives the same library. -/
+theorem both_walks_agree (mp : α → α → α) (fs : List (Forest α)) (hw : ∀ f ∈ fs, Wf f) :
+    mergeAllFromEmpty mp fs = mergeAll mp fs := by
+  cases fs with
+  | nil => rfl
+  | cons f fs =>
+    simp only [mergeAllFromEmpty, mergeAll, List.foldl_cons]
+    rw [extend_nil mp f (hw f (by simp))]
+
+/-- **Order independence** (code with the proposed fix): if every class path has its payload
+    defined at most once among the files (placeholders of `within` clauses and empty packages
+    do not count), merging the files in any two orders gives trees that are equal up to the
+    order of sibling classes. -/
+theorem extend_comm_assoc [DecidableEq α] (ph : α) (fs fs' : List (Forest α)) (hp : fs.Perm fs')
+    (hw : ∀ f ∈ fs, Wf f)
+    (hd : ∀ path, DefinedOnce ph (fs.map (fun f => get f path))) :
+    Equiv (mergeAll (fill ph) fs) (mergeAll (fill ph) fs') := by
+  intro path
+  have hw' : ∀ f ∈ fs', Wf f := fun f hf => hw f (hp.mem_iff.mpr hf)
+  rw [get_mergeAll _ path fs hw, get_mergeAll _ path fs' hw']
+  apply combine_fill_congr ph _ _ _ (hd path)
+  intro x
+  exact (hp.map (fun f => get f path)).mem_iff
+
+/-- The case that decides whether payload survives: with the fix, a definition of a class
+    (for instance a package's own file with its constants) wins over any number of `within`
+    placeholders for the same path, wherever it stands in the merge order. -/
+theorem defined_payload_survives [DecidableEq α] (ph : α) (fs : List (Forest α))
+    (hw : ∀ f ∈ fs, Wf f) (path : List String)
+    (hd : DefinedOnce ph (fs.map (fun f => get f path)))
+    (f : Forest α) (hf : f ∈ fs) (v : α) (hv : get f path = some v) (hne : v ≠ ph) :
+    get (mergeAll (fill ph) fs) path = some v := by
+  rw [get_mergeAll _ path fs hw]
+  exact (combine_fill_spec ph _ hd).1 v hne (List.mem_map.mpr ⟨f, hf, hv⟩)
+
+/-- Anything computed from the merged tree by name lookup only (it respects `Equiv`) — the
+    flattened model of each class — is the same for every file order. -/
+theorem flatten_order_independent [DecidableEq α] {β : Type} (ph : α) (obs : Forest α → β)
+    (hobs : ∀ a b, Equiv a b → obs a = obs b)
+    (fs fs' : List (Forest α)) (hp : fs.Perm fs') (hw : ∀ f ∈ fs, Wf f)
+    (hd : ∀ path, DefinedOnce ph (fs.map (fun f => get f path))) :
+    obs (mergeAll (fill ph) fs) = obs (mergeAll (fill ph) fs') :=
+  hobs _ _ (extend_comm_assoc ph fs fs' hp hw hd)
+
+-- non-vacuity: a package with a constant in its own file, and a `within P;` file with a model
+example : let own : Forest Nat := .cons "P" 7 (.cons "Base" 3 .nil .nil) .nil
+    let wth : Forest Nat := fileToTree 0 ["P"] (.cons "M1" 4 .nil .nil)
+    Wf own ∧ Wf wth ∧ get (mergeAll (fill 0) [wth, own]) ["P"] = some 7
+      ∧ get (mergeAll (fill 0) [own, wth]) ["P"] = some 7
+      ∧ get (mergeAll (fill 0) [wth, own]) ["P", "M1"] = some 4 := by
+  simp [Wf, names, fileToTree, mergeAll, extend, extendBy, iom, get, find, fill]
+
+/-- **The code as it is**: the payload at a path is the one of the *first* file, in merge
+    order, that contains the path at all — definition or placeholder. -/
+theorem asis_first_file_wins (fs : List (Forest α)) (hw : ∀ f ∈ fs, Wf f) (path : List String) :
+    get (mergeAll keepFirst fs) path = (fs.map (fun f => get f path)).findSome? id := by
+  rw [get_mergeAll _ path fs hw, combine_keepFirst]
+
+/-- As-is order independence holds when all files that contain a path agree on its payload,
+    placeholders included.  *Missing for the full property:* a path that is a `within`
+    placeholder in one file and defined in another (C27-F1); see
+    `asis_within_before_package_loses_payload`. -/
+theorem extend_order_independent_asis_partial (fs fs' : List (Forest α)) (hp : fs.Perm fs')
+    (hw : ∀ f ∈ fs, Wf f)
+    (ha : ∀ path v w, some v ∈ fs.map (fun f => get f path) →
+            some w ∈ fs.map (fun f => get f path) → v = w) :
+    Equiv (mergeAll keepFirst fs) (mergeAll keepFirst fs') := by
+  intro path
+  have hw' : ∀ f ∈ fs', Wf f := fun f hf => hw f (hp.mem_iff.mpr hf)
+  rw [get_mergeAll _ path fs hw, get_mergeAll _ path fs' hw']
+  apply combine_keepFirst_congr _ _ _ (ha path)
+  intro x
+  exact (hp.map (fun f => get f path)).mem_iff
+
+example : (∀ f ∈ [Forest.cons "P" 0 (.cons "A" 1 .nil .nil) .nil, Forest.cons "P" 0 (.cons "B" 2 .nil .nil) .nil],
+    Wf f) := by simp [Wf, names]
+
+/-- C27-F1 on the model: as-is, a `within P;` file merged before `P`'s own file leaves `P`
+    with the placeholder's payload; merged after it, `P` keeps its own payload. -/
+theorem asis_within_before_package_loses_payload (ph v : α) (P : String) (cs ks : Forest α) :
+    get (mergeAll keepFirst [fileToTree ph [P] cs, .cons P v ks .nil]) [P] = some ph ∧
+    get (mergeAll keepFirst [.cons P v ks .nil, fileToTree ph [P] cs]) [P] = some v := by
+  simp [mergeAll, extend, extendBy, iom, fileToTree, get, find, keepFirst]
+
+/-- `file_to_tree`: below the `within` path the file's own classes are found unchanged. -/
+theorem get_fileToTree_below (ph : α) (w : List String) (cs : Forest α) (q : List String)
+    (hq : q ≠ []) : get (fileToTree ph w cs) (w ++ q) = get cs q := by
+  induction w with
+  | nil => rfl
+  | cons n w ih =>
+    have hne : w ++ q ≠ [] := by simp [hq]
+    have hstep : fileToTree ph (n :: w) cs = .cons n ph (fileToTree ph w cs) .nil := rfl
+    rw [hstep, List.cons_append, get_cons_self n ph _ .nil (w ++ q) hne]
+    exact ih
+
+/-- `file_to_tree`: every non-empty prefix of the `within` path is a placeholder package. -/
+theorem get_fileToTree_prefix (ph : α) (w1 w2 : List String) (cs : Forest α) (h1 : w1 ≠ []) :
+    get (fileToTree ph (w1 ++ w2) cs) w1 = some ph := by
+  induction w1 with
+  | nil => exact absurd rfl h1
+  | cons n w ih =>
+    have hstep : fileToTree ph (n :: w ++ w2) cs = .cons n ph (fileToTree ph (w ++ w2) cs) .nil := rfl
+    rw [hstep]
+    by_cases hw : w = []
+    · subst hw; simp [get, find]
+    · rw [get_cons_self n ph _ .nil w hw]
+      exact ih hw
+
+example : get (fileToTree 0 ["P", "Q"] (Forest.cons "M" 5 .nil .nil)) ["P", "Q", "M"] = some 5 := by
+  simp [fileToTree, get, find]
+
+end PymocaVerif.Merge
